@@ -304,6 +304,42 @@ def foreign_root_history(ctx):
         c.time = old
 
 
+
+def double_protected(ctx):
+    """a secret protected twice (the plaintext of the outer blob is itself a DPAPI-NG blob the same key material decrypts): every option-field
+    neighbour, every single-bit flip of the outer blob's identifiers and a sample of the rest must yield an error or the ORIGINAL outer
+    plaintext (the inner blob) — never anything derived from it, such as the innermost secret (real crypto)"""
+    rec = [r for r in clientsim.standard_roots(real=True) if r.secret_algorithm == "ECDH_P256"][0]
+    dc = refdc.KeyServer(now=(361, 17, 13))
+    dc.add_root(rec)
+    s = clientsim.Sim(dc, real_crypto=True)
+    with s.world():
+        s.load(rec)
+        inner = s.protect(b"the innermost secret", "S-1-5-21-1-2-3-1103", rk=rec.id)
+        outer = s.protect(bytes.fromhex(inner[5:]), "S-1-5-21-1-2-3-1103", rk=rec.id)
+    if not (inner.startswith("done ") and outer.startswith("done ")):
+        return
+    data, blob = bytes.fromhex(inner[5:]), bytes.fromhex(outer[5:])
+    from props import c05
+    cands = []
+    for (off, hl, cl, cons) in c05.tlv_spans(blob):
+        if blob[off] in (0x02, 0x06) and cl >= 1:
+            for pos in range(off, off + hl + cl):
+                for bit in range(8):
+                    cands.append((f"bitflip@{pos}.{bit}", blob[:pos] + bytes([blob[pos] ^ (1 << bit)]) + blob[pos + 1:]))
+    cands += [(k, m) for (k, m) in mutants(ctx, blob, False) if k.startswith("option@")][:400]
+    for kind, m in cands:
+        s2 = clientsim.Sim(dc, real_crypto=True)
+        with s2.world():
+            s2.load(rec)
+            out = s2.unprotect(m, no_reply=True)
+        ctx.count("real:double_protected")
+        if out is not None and out.startswith("done ") and out != "done " + hx(data):
+            ctx.violation("a modified blob decrypts to different plaintext", {"config": [rec.hash_name, rec.secret_algorithm, "cache", "in-envelope"], "mutation": "double-protected:" + kind,
+                                                                            "blob": hx(m), "real_crypto": True}, out[:80], "error or the original plaintext (the inner blob)")
+            return
+
+
 def big_contents(ctx):
     """large plaintexts whose length sits on the chunk sizes a streaming decryptor would use (4 KiB … 128 KiB, ± one AES block), with
     bits of the ciphertext body and of the tag flipped (real crypto, both layouts): a chunked implementation must still verify the tag"""
@@ -469,6 +505,7 @@ def run(ctx):
     mode_confusion(ctx)
     cross_group_history(ctx)
     foreign_root_history(ctx)
+    double_protected(ctx)
 
 
 def search(ctx, broken, disagreements):
